@@ -21,6 +21,8 @@ Fixpoint supported (t : node) : bool :=
   | NCapture _ g u r => (u =? -1) && supported r
   | NGroup r | NAtomic r | NPosLook _ r | NNegLook _ r => supported r
   | NLoop _ _ m n r => (0 <=? m) && (n <=? INF) && supported r
+  | NBackRefCond _ _ yes no => supported yes && match no with Some x => supported x | None => true end
+  | NExprCond _ c yes no => supported c && supported yes && match no with Some x => supported x | None => true end
   | _ => false
   end.
 
@@ -234,6 +236,11 @@ Proof.
   - split; [exact I|apply IHt; exact Hs].
   - split; [exact I|apply IHt; exact Hs].
   - split; [exact I|apply IHt; exact Hs].
+  - apply andb_prop in Hs. destruct Hs as [Hy Hn]. split; [exact I|]. split; [apply IHt; exact Hy|].
+    destruct no as [x|]; [apply H; exact Hn|exact I].
+  - apply andb_prop in Hs. destruct Hs as [Hs Hn]. apply andb_prop in Hs. destruct Hs as [Hc Hy].
+    split; [exact I|]. split; [apply IHt1; exact Hc|]. split; [apply IHt2; exact Hy|].
+    destruct no as [x|]; [apply H; exact Hn|exact I].
 Qed.
 
 Section CC.
